@@ -28,13 +28,15 @@ func init() {
 
 func newUpdogDriver() *updogDriver {
 	return &updogDriver{
-		fileConnCache: map[fileCacheKey]*fileConn{},
+		fileConnCache: map[string]*fileConn{},
 	}
 }
 
 type updogDriver struct {
-	fileConnMtx   sync.RWMutex
-	fileConnCache map[fileCacheKey]*fileConn
+	// fileConnMtx guards fileConnCache and the reference counts of the
+	// connections in it.
+	fileConnMtx   sync.Mutex
+	fileConnCache map[string]*fileConn
 }
 
 func (d *updogDriver) Open(name string) (driver.Conn, error) {
@@ -57,43 +59,32 @@ func (d *updogDriver) Open(name string) (driver.Conn, error) {
 	}
 }
 
-type fileCacheKey struct {
-	file string
-	opts string
-}
-
 func (d *updogDriver) openFile(file string, optValues url.Values) (driver.Conn, error) {
 	var opts []updog.IndexOption
 
-	key := fileCacheKey{
-		file: file,
-	}
-
 	if optValues.Get("preload") == "true" {
 		opts = append(opts, updog.WithPreloadedData())
-		key.opts += ";preload=true"
 	}
 
 	if optValues.Get("lrucache") == "true" {
-		key.opts += ";lrucache=true"
-
 		cacheSizeStr := optValues.Get("lrucachesize")
 		cacheSize, err := strconv.ParseUint(cacheSizeStr, 10, 64)
 		if err != nil {
 			return nil, fmt.Errorf("invalid lrucachesize: %v", err)
 		}
 
-		key.opts += ";lrucachesize=" + cacheSizeStr
-		lruCache := updog.NewLRUCache(cacheSize)
-
-		opts = append(opts, updog.WithCache(lruCache))
+		opts = append(opts, updog.WithCache(updog.NewLRUCache(cacheSize)))
 	}
 
-	d.fileConnMtx.RLock()
-	conn, ok := d.fileConnCache[key]
-	d.fileConnMtx.RUnlock()
+	// An index file can only be opened once per process (it is locked while
+	// open), so all connections to the same file share one index. Looking up,
+	// opening and registering the index is one critical section. The preload
+	// and cache options only affect performance; the options of whoever opens
+	// the file first are the ones in effect.
+	d.fileConnMtx.Lock()
+	defer d.fileConnMtx.Unlock()
 
-	if ok {
+	if conn, ok := d.fileConnCache[file]; ok {
 		conn.refs.Add(1)
 		return conn, nil
 	}
@@ -103,15 +94,15 @@ func (d *updogDriver) openFile(file string, optValues url.Values) (driver.Conn, 
 		return nil, fmt.Errorf("couldn't open index file %q: %v", file, err)
 	}
 
-	conn = &fileConn{
-		idx: idx,
+	conn := &fileConn{
+		d:    d,
+		file: file,
+		idx:  idx,
 	}
 
-	d.fileConnMtx.Lock()
-	d.fileConnCache[key] = conn
-	d.fileConnMtx.Unlock()
-
 	conn.refs.Add(1)
+
+	d.fileConnCache[file] = conn
 
 	return conn, nil
 }
@@ -126,6 +117,9 @@ func (d *updogDriver) openConn(host string, port string) (driver.Conn, error) {
 }
 
 type fileConn struct {
+	d    *updogDriver
+	file string
+
 	idx *updog.Index
 
 	refs atomic.Int32
@@ -148,13 +142,20 @@ func (c *fileConn) prepare(query string) (*fileStmt, error) {
 }
 
 func (c *fileConn) Close() error {
-	if c.refs.Add(-1) <= 0 {
-		idx := c.idx
-		c.idx = nil
-		return idx.Close()
+	c.d.fileConnMtx.Lock()
+	defer c.d.fileConnMtx.Unlock()
+
+	if c.refs.Add(-1) > 0 {
+		return nil
 	}
 
-	return nil
+	// the last user is gone: forget the connection, so that the next open of
+	// the file gets a fresh index, and release the file.
+	if c.d.fileConnCache[c.file] == c {
+		delete(c.d.fileConnCache, c.file)
+	}
+
+	return c.idx.Close()
 }
 
 func (c *fileConn) Begin() (driver.Tx, error) {
